@@ -1085,8 +1085,8 @@ fn twin_c10_c11_c09() -> R {
     for req_v in [Version::HTTP_10, Version::HTTP_11] {
         for req_close in [None, Some("close"), Some("keep-alive")] {
             for expect in [false, true] {
-                for handshake in 0..4 {
-                    // 0: 100 continue, 1: refused 403 bare, 2: refused with headers, 3: give up waiting
+                for handshake in 0..5 {
+                    // 0: 100 continue, 1: refused 403 bare, 2: refused with headers, 3: give up waiting, 4: bare 102 (not a 100!)
                     if !expect && handshake != 0 {
                         continue;
                     }
@@ -1106,7 +1106,7 @@ fn twin_c10_c11_c09() -> R {
                                     let mut out = vec![0u8; 2048];
                                     flow.write(&mut out).map_err(|e| format!("{:?}", e))?;
                                     let mut refused = false;
-                                    let refusal = if handshake == 2 { "HTTP/1.1 403 Forbidden\r\nContent-Length: 0\r\n\r\n" } else { "HTTP/1.1 403 Forbidden\r\n\r\n" };
+                                    let refusal = if handshake == 2 { "HTTP/1.1 403 Forbidden\r\nContent-Length: 0\r\n\r\n" } else if handshake == 4 { "HTTP/1.1 102 Processing\r\n\r\n" } else { "HTTP/1.1 403 Forbidden\r\n\r\n" };
                                     let mut rr = match flow.proceed() {
                                         Ok(Some(SendRequestResult::Await100(mut a))) => {
                                             if !expect {
@@ -1125,7 +1125,7 @@ fn twin_c10_c11_c09() -> R {
                                                         return Err("bare 100 not consumed exactly".into());
                                                     }
                                                 }
-                                                1 | 2 => {
+                                                1 | 2 | 4 => {
                                                     if a.try_read_100(refusal.as_bytes()) != Ok(0) || a.can_keep_await_100() {
                                                         return Err("refusal must consume nothing and stop waiting".into());
                                                     }
@@ -1198,6 +1198,9 @@ fn twin_c10_c11_c09() -> R {
                                     }
                                     head.clear();
                                     let chunked_eff = framing == "chunked" && resp_v == "1.1" && !refused;
+                                    if refused && handshake == 4 {
+                                        // a 1xx final answer has no body: the flow ends in cleanup and must close
+                                    }
                                     let close_delim = if refused { handshake == 1 } else { (framing == "chunked" && !chunked_eff) || framing == "close" };
                                     let cleanup = match rr.proceed() {
                                         Some(RecvResponseResult::RecvBody(mut rb)) => {
@@ -1237,6 +1240,51 @@ fn twin_c10_c11_c09() -> R {
 }
 
 // ------------------------------------------------------------------------------------------------ C12
+fn twin_c12_grammar() -> R {
+    // grammar-aware hostile inputs: oversize numbers, stray CR/LF, junk sizes
+    let mut n = 0u64;
+    let sizes = ["10000000000000005", "FFFFFFFFFFFFFFFFF", "00000000000000000003", "100000000000000000000", "+5", "-5", " 5 ", "5 ;x", "0x5", "", ";", "g", "\u{e9}", "ffffffffffffffff", "7fffffffffffffff"];
+    for sz in sizes {
+        for tail in ["\r\nabcde\r\n0\r\n\r\n", "\r\n", "\r", "\nabc", "\r\r\n"] {
+            for osz in [0usize, 1, 3, 64] {
+                n += 1;
+                let input = format!("{}{}", sz, tail).into_bytes();
+                let r = std::panic::catch_unwind(|| {
+                    let mut b = to_recv_body(b"HTTP/1.1 200 OK\r\nTransfer-Encoding: chunked\r\n\r\n").unwrap();
+                    let mut off = 0;
+                    let mut produced = Vec::new();
+                    for _ in 0..16 {
+                        let mut out = vec![0u8; osz];
+                        match b.read(&input[off..], &mut out) {
+                            Ok((ci, co)) => {
+                                assert!(ci <= input.len() - off && co <= osz, "counts");
+                                produced.extend_from_slice(&out[..co]);
+                                off += ci;
+                                if ci == 0 && co == 0 { break; }
+                            }
+                            Err(_) => { let _ = b.read(&input[off..], &mut out); break; }
+                        }
+                    }
+                    // every produced byte is a copy of a consumed byte, in order
+                    let mut j = 0;
+                    for p in &produced {
+                        while j < off && input[j] != *p { j += 1; }
+                        assert!(j < off, "produced byte not taken from the consumed input");
+                        j += 1;
+                    }
+                    // a size that does not fit usize can never be accepted as a small chunk
+                    if sz.len() >= 17 && sz.trim_start_matches('0').len() >= 17 { assert!(produced.is_empty(), "oversize chunk length accepted"); }
+                });
+                if r.is_err() {
+                    return Err(format!("panic / bad counts on chunk size line {:?} tail {:?} out {}", sz, tail, osz));
+                }
+            }
+        }
+    }
+    // over-long field name, many fields, five close conditions are covered by the flow twins
+    Ok((n, n))
+}
+
 fn twin_c12() -> R {
     let mut n = 0u64;
     let alphabet: &[u8] = b"H1 0\r\n:;fa";
@@ -1461,6 +1509,7 @@ fn twin() {
         (&["C08", "C01"], "length-and-close-delimited-bodies", twin_c08),
         (&["C09", "C10", "C11"], "state-graph-handshake-and-verdict", twin_c10_c11_c09),
         (&["C12"], "hostile-server-bytes", twin_c12),
+        (&["C12", "C07"], "hostile-chunk-size-lines", twin_c12_grammar),
         (&["C13", "C14", "C15"], "redirects", twin_c13_c14_c15),
     ];
     let mut failed = false;
